@@ -219,9 +219,15 @@ int skinny64_ctr_init(Skinny64CTR_t *ctr)
     if (_skinny_has_vec128())
         vtable = &_skinny64_ctr_vec128;
     ctr->vtable = vtable;
+    ctr->ctx = 0;
 
     /* Initialize the CTR mode context */
-    return (*(vtable->init))(ctr);
+    if (!(*(vtable->init))(ctr)) {
+        /* Out of memory: leave the control block in the cleaned up state */
+        ctr->vtable = 0;
+        return 0;
+    }
+    return 1;
 }
 
 void skinny64_ctr_cleanup(Skinny64CTR_t *ctr)
